@@ -262,7 +262,7 @@ _rms_operand_contract(True)
 
 
 @contract('C12.EncircledEnergy', [AN + 'encircled_energy.py:EncircledEnergy._plot_field', AN + 'encircled_energy.py:EncircledEnergy.centroid'],
-          ['C12'], max_paths=64)
+          ['C12'], max_paths=200)
 def encircled(c):
     """the encircled-energy curve (computed inside _plot_field) is non-decreasing and reaches the total energy"""
     A = c.mod('optiland.analysis.encircled_energy')
@@ -287,6 +287,13 @@ def encircled(c):
     for i in range(2):
         c.ensure('C12.encircled_energy.non_decreasing_in_radius', ee[i + 1] >= ee[i])
     c.ensure_eq('C12.encircled_energy.reaches_total_transmitted_energy', ee[2], es[0] + es[1])
+    # at every radius of the curve: the energy of exactly those rays that land within it (each ray with its own energy)
+    ri = c.val(captured['r'], 1)                       # the middle radius of the curve
+    want = 0
+    for j in range(2):
+        if c.decide(c.sqrt(rmax2[j]) <= ri):
+            want = want + es[j]
+    c.ensure_eq('C12.encircled_energy.is_the_energy_of_the_rays_within_the_radius', ee[1], want)
 
 
 # ---- bounded tier: recomputation from independently traced rays on real lenses -----------------------------------
